@@ -21,11 +21,12 @@ from framework import Case, Violation
 ID = 'C07'
 LEAN_MODULE = 'PlasVerif.Properties.C07'
 LEVEL_TEXT = ('Lean 4 theorems over a line-by-line model of the digestion protocol (TeX.parse, bufferediter push-back, Macro.digest, digestUntil, Environment.digest, '
-              'SectionUtils.digest, bgroup.digest, List/List.item.digest, Macro.paragraphs, Node.normalize/appendText with the NoCharSub dispatch) on the expanded-item stream. '
-              'Proved for EVERY stream (no balance assumption, every fuel): digest/parse/fragment_no_dup_no_reorder (the depth-first reading, arguments then children, of the result plus the unread rest '
-              'is a subsequence of the reading of the input: nothing duplicated, nothing reordered), paragraphs_regroup_exact, digest_keeps_item, sections_absorb_deeper, buffered_push_next/flat, '
-              'charsubs_scope_nosub + charsubs_never_in_nosub (no character changes below a verbatim/math node at any depth), charsubs_applied_to_text_run, charsubs_plain (regenerated table: only quotes/dashes are touched). '
-              'Stated but not proved (kept as *_statement, carried by the correspondence and doc7): no loss (equality under Spec.clean), par_no_par, full sections_nest, parent_labels_consistent, charsubs_idempotent. '
+              'SectionUtils.digest, bgroup.digest, List/List.item.digest, Macro.paragraphs, Node.normalize/appendText with the NoCharSub dispatch) on the expanded-item stream, all for EVERY stream '
+              '(no balance assumption) and every fuel: digest_conserves (on streams satisfying the decidable predicate Spec.clean the depth-first reading, arguments then children, of the parsed tree '
+              'EQUALS the reading of the stream: no loss, no duplication, no reordering; the invariant is proved preserved by paragraphs/norm/digest), *_no_dup_no_reorder (subsequence, unconditional), '
+              'parse_total/digest_total (fuel adequacy: parse never runs out of fuel), par_no_par (deep), parent_labels_consistent (deep, unconditional), sections_nest (a unit holds only paragraphs and '
+              'units of level strictly between its own and ENDSECTIONS, on sectioning-skeleton streams) + sections_absorb_deeper/sections_stop_at_not_deeper (every stream), paragraphs_partition, '
+              'charsubs_idempotent, charsubs_complete, charsubs_plain, charsubs_scope_nosub/charsubs_never_in_nosub, charsubs_applied_to_text_run, buffered_push_next/flat, parse_well_formed (the clauses together). '
               'The model is tied to the code by replaying, for generated documents, every real TeX.parse call (recorded item stream -> tree, shape/order/text/parent links) through the model, '
               'and the whole statement is checked end-to-end on generated documents with unique marker words (doc7).')
 LEVEL_NOTE = ('Trusted: Lean kernel (propext, Classical.choice, Quot.sound), translator (levels, defaultCharsubs), the recording harness and its generators, the doc7 oracle, CPython. '
@@ -34,7 +35,8 @@ LEVEL_NOTE = ('Trusted: Lean kernel (propext, Classical.choice, Quot.sound), tra
 TECHNIQUE = 'Lean 4 proof (fuel induction over mutually recursive digest/loop, structural induction over trees) + regenerated tables + differential replay of recorded parse calls + document-level oracle'
 TRUSTED = ['python oracle harness/props/c07.py:doc7_check (depth-first marker order, parent links, section/paragraph discipline, substitution scope)',
            'recording of the item stream (bufferediter subclass, TeX.parse/Node.normalize wrappers installed from the harness process)']
-ASSUMPTIONS = ['streams satisfy Spec.DocTree.clean (blank text and closing tokens carry no words; paragraph tokens have no absorbing digest) - evaluated by the driver on every recorded stream',
+ASSUMPTIONS = ['streams satisfy Spec.DocTree.clean (blank text and swallowed closers carry no words; paragraph tokens are argument-free elements with Macro.digest; text nodes have no children) - evaluated by the driver on every recorded stream (all of them satisfy it)',
+               'sections_nest is stated for sectioning-skeleton streams (Spec.secSkel: sections, text, paragraph tokens, inert commands); sections containing environments/lists/groups are carried by sections_absorb_deeper, the digest stream and doc7',
                'documents of the generated grammar, nesting depth <= 4; ~15% malformed documents are compared model-vs-code only']
 RULE = ('documents generated from the seed by the grammar of the quantifier (classes article/book, 4 sectioning levels, lists, description, tabular, quote/center, footnotes, boxes, math, verbatim, '
         'labels/refs, fonts, groups; 15% malformed); one case per TeX.parse call; non-trivial = the recorded stream holds at least one element with an absorbing digest and the tree is not flat; '
